@@ -1,8 +1,9 @@
 #!/bin/bash
+# usage: tools/regress_seeded.sh [seed] [id-glob]
 # Run every seeded change (scratch copy of /repo HEAD + patch) against the check of its property; one line per seed.
 cd "$(dirname "$0")/.." || exit 2
 for d in seeded/*/; do
-  id=$(basename $d); prop=$(/venv/bin/python -c "import json;print(json.load(open('$d/meta.json'))['property'])")
+  id=$(basename $d); case "$id" in ${2:-*}) ;; *) continue;; esac; prop=$(/venv/bin/python -c "import json;print(json.load(open('$d/meta.json'))['property'])")
   out=$(tools/run_seeded_scratch.sh $id $prop ${1:-0} 2>&1)
   n=$(echo "$out" | grep -c "^VIOLATION")
   sigs=$(echo "$out" | grep -o "sig=[^ ]*" | sort -u | head -4 | tr '\n' ' ')
